@@ -142,6 +142,23 @@ impl VirtualAddressSpace {
     }
 }
 
+#[cfg(hyperium_h3_verif)]
+impl VirtualAddressSpace {
+    /// Build an address space from raw counters (verification harnesses only)
+    pub fn verif_from_parts(inserted: usize, dropped: usize, delta: usize) -> Self {
+        Self {
+            inserted,
+            dropped,
+            delta,
+        }
+    }
+
+    /// Raw counters `(inserted, dropped, delta)` (verification harnesses only)
+    pub fn verif_parts(&self) -> (usize, usize, usize) {
+        (self.inserted, self.dropped, self.delta)
+    }
+}
+
 #[cfg(test)]
 mod tests {
     use super::*;
